@@ -19,6 +19,7 @@ WATCHED_MODULES = ("transport.py", "setup.py", "statemachine.py", "process.py", 
 ATTR_OPS = {"LOAD_ATTR", "STORE_ATTR", "DELETE_ATTR", "LOAD_GLOBAL", "STORE_GLOBAL", "LOAD_METHOD", "LOAD_SUPER_ATTR"}
 STORE_OPS = {"STORE_ATTR", "DELETE_ATTR", "STORE_GLOBAL"}
 
+BASE_PROCESS_WIDE = {"hop_by_hop_identifiers", "end_to_end_identifiers"}
 SHARED = None                  # None = discovery mode
 EXTRA_POINT_FILES = set()      # basenames for which *every* line is a point (narrow scenarios only)
 _RT = None
@@ -28,19 +29,36 @@ _TABLES = {}                   # code -> {lineno: (names frozenset, stores froze
 DISCOVERED = {}                # name -> {"threads": set, "stored_by": set, "lines": set}
 
 
+MUTATORS = {"update", "pop", "append", "remove", "extend", "clear", "add", "insert", "setdefault", "popitem",
+            "discard", "appendleft", "popleft"}
+
+
 def _table(code):
+    """{line: (names mentioned, names stored)}; a name counts as stored when it is the target of a
+    STORE/DELETE, when a mutating container method is called on it (x.pending.update(..)) or when the line
+    assigns through a subscript (x.routes[k] = v)."""
     t = _TABLES.get(code)
     if t is None:
         t = {}
         line = None
+        prev = None
         for ins in dis.get_instructions(code):
             if ins.starts_line is not None:
                 line = ins.starts_line
-            if ins.opname in ATTR_OPS and isinstance(ins.argval, str) and line is not None:
+                prev = None
+            if line is None:
+                continue
+            if ins.opname in ATTR_OPS and isinstance(ins.argval, str):
                 names, stores = t.setdefault(line, (set(), set()))
                 names.add(ins.argval)
                 if ins.opname in STORE_OPS:
                     stores.add(ins.argval)
+                if prev is not None and ins.argval in MUTATORS:
+                    stores.add(prev)
+                prev = ins.argval
+            elif ins.opname in ("STORE_SUBSCR", "DELETE_SUBSCR") and line in t:
+                names, stores = t[line]
+                stores |= names
         _TABLES[code] = t
     return t
 
@@ -60,8 +78,12 @@ def _on_line(code, line):
         return None
     entry = _table(code).get(line)
     if SHARED is None:
-        if entry:
+        if entry and rt.exploring and t.library:
             names, stores = entry
+            if base == "base.py":
+                # codec objects are handed from thread to thread through queues and are thread-confined in
+                # between: only process-wide state of the codec module is a candidate
+                names = {n for n in names if n in BASE_PROCESS_WIDE or (n in stores and n.isupper())}
             for n in names:
                 d = DISCOVERED.setdefault(n, {"threads": set(), "stored_by": set(), "lines": set()})
                 d["threads"].add(t.name)
